@@ -5,6 +5,8 @@ INIT InitPairsAll
 NEXT Next
 INVARIANT RoundTrip
 INVARIANT SizeIsLength
+INVARIANT StreamRoundTrip
+INVARIANT BytesIsStreamPlusNoTrailing
 INVARIANT ExtensionSignedIffFee
 POSTCONDITION ExportPairsAll
 CHECK_DEADLOCK FALSE
